@@ -135,6 +135,19 @@ def run(chk):
             chk.fail("R18.2", f"{PFN}:alias:{alias}", f"{alias!r} is documented as an alias for {target!r} but parses to {_p(it, a)}, which is neither the platform {target!r} nor has it as its first wheel tag")
         else:
             chk.ok("R18.2", key=(alias, target))
+    # Arch spellings accepted in platform strings resolve to the same platform as the canonical spelling
+    for alias, canon in (("manylinux_2_17_i686", "manylinux_2_17_x86"), ("manylinux_2_17_i386", "manylinux_2_17_x86"), ("manylinux_2_28_amd64", "manylinux_2_28_x86_64"),
+                         ("musllinux_1_2_arm64", "musllinux_1_2_aarch64"), ("windows_amd64", "windows_x86_64"), ("macos_12_0_arm64", "macos_12_0_aarch64")):
+        chk.instance("R18.2")
+        try:
+            a, t = do_parse(alias), do_parse(canon)
+        except PyRaise as e:
+            chk.fail("R18.2", f"{PFN}:arch-alias:{alias.rsplit('_', 1)[-1]}", f"{alias!r} / {canon!r} does not parse: {e.exc!r}")
+            continue
+        if not it.py_eq(a, t):
+            chk.fail("R18.2", f"{PFN}:arch-alias:{alias.rsplit('_', 1)[-1]}", f"{alias!r} parses to {_p(it, a)}, {canon!r} to {_p(it, t)}")
+        else:
+            chk.ok("R18.2", key=(alias, canon))
     # R18.3 parse(str(p)) == p
     osm = dom.om
     members = {m.f["value"]: m for m in dom.Arch.members}
